@@ -85,7 +85,7 @@ struct FnVisitor<'s> {
     closures: Vec<ClosureInfo>,
     pending_let: Option<String>,
     panics: Vec<PanicSite>,
-    loops: Vec<(usize, String)>,
+    loops: Vec<(usize, String, usize)>,
 }
 
 impl<'ast, 's> Visit<'ast> for FnVisitor<'s> {
@@ -150,15 +150,15 @@ impl<'ast, 's> Visit<'ast> for FnVisitor<'s> {
         visit::visit_expr_index(self, e);
     }
     fn visit_expr_while(&mut self, e: &'ast syn::ExprWhile) {
-        self.loops.push((e.span().start().line, "while".into()));
+        self.loops.push((e.span().start().line, "while".into(), self.src.start(e.body.brace_token.span.open())));
         visit::visit_expr_while(self, e);
     }
     fn visit_expr_for_loop(&mut self, e: &'ast syn::ExprForLoop) {
-        self.loops.push((e.span().start().line, "for".into()));
+        self.loops.push((e.span().start().line, "for".into(), self.src.start(e.body.brace_token.span.open())));
         visit::visit_expr_for_loop(self, e);
     }
     fn visit_expr_loop(&mut self, e: &'ast syn::ExprLoop) {
-        self.loops.push((e.span().start().line, "loop".into()));
+        self.loops.push((e.span().start().line, "loop".into(), self.src.start(e.body.brace_token.span.open())));
         visit::visit_expr_loop(self, e);
     }
 }
@@ -332,7 +332,7 @@ fn emit_fn(
         if i > 0 {
             out.s.push(',');
         }
-        write!(out.s, "{{\"what\":\"{}\",\"line\":{}}}", esc(&p.1), p.0).unwrap();
+        write!(out.s, "{{\"what\":\"{}\",\"line\":{},\"body_open\":{}}}", esc(&p.1), p.0, p.2).unwrap();
     }
     out.s.push_str("]}");
 }
